@@ -94,10 +94,16 @@ func runSig(src string, budget int) (string, *plat.Outcome) {
 
 // evyCmd runs the real evy binary.
 func evyCmd(c *core.Ctx, stdin string, args ...string) (stdout, stderr string, code int, err error) {
+	return evyCmdIn(c, "", stdin, args...)
+}
+
+// evyCmdIn runs the evy binary with dir as working directory ("" = the harness's).
+func evyCmdIn(c *core.Ctx, dir, stdin string, args ...string) (stdout, stderr string, code int, err error) {
 	if c.EvyBin == "" {
 		return "", "", -1, fmt.Errorf("no evy binary (VERIF_EVY unset)")
 	}
 	cmd := exec.Command(c.EvyBin, args...)
+	cmd.Dir = dir
 	cmd.Stdin = strings.NewReader(stdin)
 	var ob, eb bytes.Buffer
 	cmd.Stdout, cmd.Stderr = &ob, &eb
